@@ -190,8 +190,9 @@ def write_evidence(prop, tier, merged, wall, violations, notes):
     ev = {'property_id': prop.ID, 'tier': tier, 'seed': env.SEED, 'level': getattr(prop, 'LEVEL', 'exploration'),
           'coverage': cov, 'assumptions': list(getattr(prop, 'ASSUMPTIONS', [])), 'wall_s': round(wall, 2),
           'violations': violations}
-    os.makedirs(os.path.join(env.VERIF, 'evidence'), exist_ok=True)
-    path = os.path.join(env.VERIF, 'evidence', f'{prop.ID}.json')
+    edir = os.environ.get('VF_EVIDENCE_DIR') or os.path.join(env.VERIF, 'evidence')
+    os.makedirs(edir, exist_ok=True)
+    path = os.path.join(edir, f'{prop.ID}.json')
     tmp = path + '.tmp'
     with open(tmp, 'w') as f:
         json.dump(ev, f, indent=1, default=repr, sort_keys=True)
@@ -200,7 +201,7 @@ def write_evidence(prop, tier, merged, wall, violations, notes):
 
 
 def write_replay(prop, tier, fail):
-    d = os.path.join(env.VERIF, 'replays')
+    d = os.environ.get('VF_REPLAY_DIR') or os.path.join(env.VERIF, 'replays')
     os.makedirs(d, exist_ok=True)
     path = os.path.join(d, f'{prop.ID}-{env.chash(fail["case"])}.json')
     with open(path, 'w') as f:
@@ -229,7 +230,7 @@ def run_property(prop_name, tier):
     budget = prop.BUDGET_S[tier]
     deadline = t0 + budget
     open_f, fixed_f = findings_mod.load(pid)
-    rdir = os.path.join(env.VERIF, 'replays')
+    rdir = os.environ.get('VF_REPLAY_DIR') or os.path.join(env.VERIF, 'replays')
     if os.path.isdir(rdir):
         for fn in os.listdir(rdir):
             if fn.startswith(pid + '-'):
@@ -344,7 +345,7 @@ def run_property(prop_name, tier):
             path = write_replay(prop, tier, v)
             print(f'  bucket={v["bucket"]} relation={v["relation"]} expected={json.dumps(v["expected"], default=repr)[:300]} '
                   f'actual={json.dumps(v["actual"], default=repr)[:300]}')
-            print(f'VIOLATION property={pid} replay={os.path.relpath(path, env.VERIF)}')
+            print(f'VIOLATION property={pid} replay={os.path.relpath(path, env.VERIF) if not os.environ.get("VF_REPLAY_DIR") else path}')
         return 1
     return 0
 
